@@ -53,6 +53,12 @@ const findingDeep = "C08-deep-levels"
 // the caller's Output carried) and trailing whitespace is not trimmed.
 const findingFast = "C08-fastpath-unprocessed"
 
+// findingVert is the known finding: computeBidiOrdering compares the whole di.Direction byte of a
+// run with WrapConfig.Direction, so a vertical run whose orientation bits (orientation set /
+// sideways) differ from the configuration's is ordered as if it ran against the paragraph although
+// it has the paragraph's own progression.
+const findingVert = "C08-vertical-orientation-bits"
+
 // harnessBug reports a defect of the check itself (not of the library): the process exits with a
 // status the driver classifies as infrastructure, never as a violation.
 func harnessBug(format string, args ...any) {
@@ -68,13 +74,43 @@ func dirOf(rtl bool) di.Direction {
 	return di.DirectionLTR
 }
 
+// dirWith builds a direction from its facets: progression (rtl = toward the top left), axis, and
+// for vertical text the orientation bits: 0 not set, 1 upright, 2 sideways.
+func dirWith(rtl, vertical bool, orient int) di.Direction {
+	if !vertical {
+		return dirOf(rtl)
+	}
+	d := di.DirectionTTB
+	if rtl {
+		d = di.DirectionBTT
+	}
+	switch orient {
+	case 1:
+		d.SetSideways(false)
+	case 2:
+		d.SetSideways(true)
+	}
+	return d
+}
+
+// axisAdvance is the advance of a glyph along the axis of its run.
+func axisAdvance(run *shaping.Output, g *shaping.Glyph) fixed.Int26_6 {
+	if run.Direction.IsVertical() {
+		return g.YAdvance
+	}
+	return g.XAdvance
+}
+
 // ---------------------------------------------------------------------------------------------
 // the oracle for one line
 // ---------------------------------------------------------------------------------------------
 
 // lineCtx is what the oracle knows about the paragraph a line was cut from.
 type lineCtx struct {
+	// paraRTL: the progression of the paragraph direction is toward the top left (RTL or BTT)
 	paraRTL bool
+	// paraDir is WrapConfig.Direction as given to the wrapper (with its orientation bits)
+	paraDir di.Direction
 	// level of every rune of the paragraph (true UBA levels)
 	levels []int
 	// isTruncator recognises the truncator run (only ever accepted as logically last run)
@@ -194,12 +230,43 @@ func checkLine(line shaping.Line, cx *lineCtx, fail failFn) (st lineStats) {
 	for v, logical := range order {
 		want[logical] = v
 	}
+	vertExcluded := false
 	for i := range want {
-		if want[i] != vi[i] {
-			fail("VisualIndex %v differs from rule L2 over the runs' levels %v (paragraph level %d): want %v",
-				vi, reduced, e, want)
-			return st
+		if want[i] == vi[i] {
+			continue
 		}
+		// Structural matcher of C08-vertical-orientation-bits: some run of the line (truncator
+		// included) has the paragraph's progression but not its Direction byte. The weaker
+		// predicate still demanded there: L2 over the levels the byte comparison yields.
+		matches := false
+		byteLevels := make([]int, n)
+		for k := range line {
+			same := line[k].Direction == cx.paraDir
+			if !same && (line[k].Direction.Progression() == di.TowardTopLeft) == cx.paraRTL {
+				matches = true
+			}
+			byteLevels[k] = e
+			if !same {
+				byteLevels[k] = e + 1
+			}
+		}
+		if matches && ev.Known(findingVert) {
+			ok := true
+			for v, logical := range uaxref.L2Order(byteLevels) {
+				if vi[logical] != v {
+					ok = false
+				}
+			}
+			if ok {
+				ev.Excluded(findingVert)
+				ev.Label(cx.tag + "_line_orientation_bits_misordered")
+				vertExcluded = true
+				break
+			}
+		}
+		fail("VisualIndex %v differs from rule L2 over the runs' levels %v (paragraph level %d, paragraph direction %d, run directions %v): want %v",
+			vi, reduced, e, cx.paraDir, runDirections(line), want)
+		return st
 	}
 
 	// --- clause 2b: agreement with L2 over the true levels, rune by rune
@@ -250,7 +317,9 @@ func checkLine(line shaping.Line, cx *lineCtx, fail failFn) (st lineStats) {
 	if deep {
 		ev.Label(cx.tag + "_line_deep")
 	}
-	if misordered {
+	if vertExcluded {
+		// already counted under C08-vertical-orientation-bits; the rune order is wrong by the same defect
+	} else if misordered {
 		if deep && ev.Known(findingDeep) {
 			ev.Excluded(findingDeep)
 			ev.Label(cx.tag + "_line_deep_misordered")
@@ -272,6 +341,14 @@ func checkLine(line shaping.Line, cx *lineCtx, fail failFn) (st lineStats) {
 		checkTrim(line, nText, vi, cx, fail)
 	}
 	return st
+}
+
+func runDirections(line shaping.Line) []int {
+	out := make([]int, len(line))
+	for i := range line {
+		out[i] = int(line[i].Direction)
+	}
+	return out
 }
 
 func visualIndices(line shaping.Line) []int {
@@ -306,7 +383,8 @@ func checkTrim(line shaping.Line, nText int, vi []int, cx *lineCtx, fail failFn)
 		var sum fixed.Int26_6
 		for gi := range line[i].Glyphs {
 			g := &line[i].Glyphs[gi]
-			sum += g.XAdvance
+			gAdv := axisAdvance(&line[i], g)
+			sum += gAdv
 			adv, ws, ok := cx.glyphOf(g.ClusterIndex)
 			if !ok {
 				ev.Label(cx.tag + "_trim_glyph_unmapped")
@@ -320,18 +398,18 @@ func checkTrim(line shaping.Line, nText int, vi []int, cx *lineCtx, fail failFn)
 			} else if isTarget {
 				ev.Label(cx.tag + "_trim_target_not_space")
 			}
-			if g.XAdvance != wantAdv && isTarget && cx.fastPath && cx.trim && ws && g.XAdvance == adv && ev.Known(findingFast) {
+			if gAdv != wantAdv && isTarget && cx.fastPath && cx.trim && ws && gAdv == adv && ev.Known(findingFast) {
 				ev.Excluded(findingFast)
 				ev.Label(cx.tag + "_fastpath_not_trimmed")
 				continue
 			}
-			if g.XAdvance != wantAdv {
+			if gAdv != wantAdv {
 				what := "is not the visually last glyph in paragraph direction"
 				if isTarget {
 					what = fmt.Sprintf("is the visually last glyph in paragraph direction (whitespace=%v, trimming enabled=%v)", ws, cx.trim)
 				}
-				fail("glyph %d of run %d (cluster %d, VisualIndex %d of %v) %s: XAdvance %d, shaped advance %d, want %d",
-					gi, i, g.ClusterIndex, vi[i], vi, what, g.XAdvance, adv, wantAdv)
+				fail("glyph %d of run %d (cluster %d, VisualIndex %d of %v) %s: advance %d, shaped advance %d, want %d",
+					gi, i, g.ClusterIndex, vi[i], vi, what, gAdv, adv, wantAdv)
 				return
 			}
 		}
@@ -378,6 +456,23 @@ type synCase struct {
 	// WrapParagraph: use LineWrapper.WrapParagraph with the first-line width for every line
 	// instead of successive WrapNextLine calls.
 	WrapParagraph bool `json:"wrap_paragraph"`
+	// Vertical: the paragraph and its runs are vertical (TTB for even levels, BTT for odd ones).
+	// The orientation bits of WrapConfig.Direction (CfgOrient), of every run (RunOrient[i]) and of
+	// the truncator (TruncOrient) are independent: 0 not set, 1 upright, 2 sideways. Glyphs advance
+	// along y: by -10 (what the shaper produces) on unlimited lines, by +10 when a width limits the
+	// line, because the wrapper compares the signed sum of the advances with maxWidth (C04's business).
+	Vertical    bool  `json:"vertical,omitempty"`
+	CfgOrient   int   `json:"cfg_orient,omitempty"`
+	RunOrient   []int `json:"run_orient,omitempty"`
+	TruncOrient int   `json:"trunc_orient,omitempty"`
+}
+
+// synSign is the sign of the synthetic glyph advances.
+func (c *synCase) synSign() int {
+	if c.Vertical && c.Split == 0 && c.TruncMode != 2 {
+		return -1
+	}
+	return 1
 }
 
 // isWS tells whether the glyph of rune k is whitespace.
@@ -416,16 +511,23 @@ func synRuns(c synCase) (runs []shaping.Output, text []rune, runeLevels []int) {
 				w = 0
 			}
 			glyphs[j] = shaping.Glyph{
-				Width: w, Height: -fixed.I(8), YBearing: fixed.I(8), XAdvance: fixed.I(synAdv),
+				Width: w, Height: -w, YBearing: fixed.I(8), XAdvance: fixed.I(synAdv),
 				ClusterIndex: cluster, RuneCount: 1, GlyphCount: 1, GlyphID: font.GID(cluster + 1),
+			}
+			if c.Vertical {
+				glyphs[j].XAdvance, glyphs[j].YAdvance = 0, fixed.I(synAdv*c.synSign())
 			}
 			text = append(text, synRune)
 			runeLevels = append(runeLevels, lv)
 		}
+		orient := 0
+		if c.RunOrient != nil {
+			orient = c.RunOrient[i]
+		}
 		runs[i] = shaping.Output{
-			Advance:     fixed.I(synAdv * k),
+			Advance:     fixed.I(synAdv * k * c.synSign()),
 			Size:        fixed.I(16),
-			Direction:   dirOf(rtl),
+			Direction:   dirWith(rtl, c.Vertical, orient),
 			Runes:       shaping.Range{Offset: off, Count: k},
 			Glyphs:      glyphs,
 			VisualIndex: synStaleVI,
@@ -468,12 +570,18 @@ func runSynthetic(t ev.TB, c synCase) (nontrivial bool) {
 	runs, text, runeLevels := synRuns(c)
 	nRunes := len(text)
 	isWS := c.wsSet()
+	if c.RunOrient != nil && len(c.RunOrient) != n {
+		harnessBug("synthetic case with %d runs and %d run orientations", n, len(c.RunOrient))
+	}
 	trunc := shaping.Output{
-		Advance: fixed.I(synAdv), Size: fixed.I(16), Direction: dirOf(c.ParaRTL != c.TruncOpp),
-		Glyphs:      []shaping.Glyph{{Width: fixed.I(8), XAdvance: fixed.I(synAdv), GlyphID: synTruncGID, GlyphCount: 1}},
+		Advance: fixed.I(synAdv * c.synSign()), Size: fixed.I(16), Direction: dirWith(c.ParaRTL != c.TruncOpp, c.Vertical, c.TruncOrient),
+		Glyphs:      []shaping.Glyph{{Width: fixed.I(8), Height: -fixed.I(8), XAdvance: fixed.I(synAdv), GlyphID: synTruncGID, GlyphCount: 1}},
 		VisualIndex: -9,
 	}
-	cfg := shaping.WrapConfig{Direction: dirOf(c.ParaRTL), DisableTrailingWhitespaceTrim: c.DisableTrim}
+	if c.Vertical {
+		trunc.Glyphs[0].XAdvance, trunc.Glyphs[0].YAdvance = 0, fixed.I(synAdv*c.synSign())
+	}
+	cfg := shaping.WrapConfig{Direction: dirWith(c.ParaRTL, c.Vertical, c.CfgOrient), DisableTrailingWhitespaceTrim: c.DisableTrim}
 	first := synHugeWidth
 	if c.Split > 0 {
 		first = c.Split * synAdv
@@ -493,6 +601,7 @@ func runSynthetic(t ev.TB, c synCase) (nontrivial bool) {
 	}
 	cx := &lineCtx{
 		paraRTL: c.ParaRTL,
+		paraDir: cfg.Direction,
 		levels:  runeLevels,
 		isTruncator: func(run *shaping.Output) bool {
 			return c.TruncMode != 0 && len(run.Glyphs) == 1 && run.Glyphs[0].GlyphID == synTruncGID
@@ -501,12 +610,12 @@ func runSynthetic(t ev.TB, c synCase) (nontrivial bool) {
 			if cluster < 0 || cluster >= nRunes {
 				return 0, false, false
 			}
-			return fixed.I(synAdv), isWS(cluster), true
+			return fixed.I(synAdv * c.synSign()), isWS(cluster), true
 		},
 		trim: !c.DisableTrim,
 		tag:  "syn",
 	}
-	cx.fastPath = c.WrapParagraph && n == 1 && !(cfg.TextContinues && cfg.TruncateAfterLines == 1) && synAdv*nRunes <= first
+	cx.fastPath = c.WrapParagraph && n == 1 && !(cfg.TextContinues && cfg.TruncateAfterLines == 1) && synAdv*nRunes*c.synSign() <= first
 	cx.inputVisualIndex = synStaleVI
 	var w shaping.LineWrapper
 	var paraLines []shaping.Line
@@ -790,6 +899,104 @@ func TestPropSyntheticMulti(t *testing.T) {
 	}
 }
 
+// TestPropSyntheticVertical: vertical paragraphs whose runs, truncator and WrapConfig.Direction
+// carry independent orientation bits (not set / upright / sideways), as Segmenter.Split produces
+// for mixed scripts (it sets the bits of every run from its script while the caller's
+// WrapConfig.Direction usually is the plain DirectionTTB). The level of a run comes from its
+// progression alone. Every level sequence of 1..4 runs (levels up to 3, both progressions) x the
+// three configurations x every orientation pattern of the runs (1..3 runs; 12 seeded patterns for
+// 4 runs) x single- and multi-glyph runs x truncator off / appended with each orientation and
+// either progression / truncating x one line and one split x both APIs x trimming on/off.
+func TestPropSyntheticVertical(t *testing.T) {
+	shard, nshards := ev.Shard()
+	var total, nt int64
+	run := func(c synCase) {
+		total++
+		if runSynthetic(t, c) {
+			nt++
+		}
+		if total%30011 == 0 {
+			ev.Sample(c)
+		}
+	}
+	seqNo := 0
+	enumerate(4, 3, func(rtl bool, levels []int) {
+		seqNo++
+		if seqNo%nshards != shard {
+			return
+		}
+		n := len(levels)
+		lv := append([]int(nil), levels...)
+		r := rng2(ev.Seed(), -11, seqNo, n)
+		nPat := 1
+		for i := 0; i < n; i++ {
+			nPat *= 3
+		}
+		pats := make([]int, 0, nPat)
+		if n <= 3 {
+			for p := 0; p < nPat; p++ {
+				pats = append(pats, p)
+			}
+		} else {
+			for k := 0; k < 12; k++ {
+				pats = append(pats, r.Intn(nPat))
+			}
+		}
+		for cfgOrient := 0; cfgOrient < 3; cfgOrient++ {
+			for _, p := range pats {
+				orient := make([]int, n)
+				x := p
+				for i := range orient {
+					orient[i] = x % 3
+					x /= 3
+				}
+				base := synCase{ParaRTL: rtl, Levels: lv, Vertical: true, CfgOrient: cfgOrient, RunOrient: orient}
+				var counts []int
+				g := n
+				if r.Intn(2) == 0 {
+					counts = make([]int, n)
+					g = 0
+					for i := range counts {
+						counts[i] = 1 + r.Intn(3)
+						g += counts[i]
+					}
+					base.Glyphs = counts
+				}
+				base.WSMask = uint(r.Uint64()) & (1<<uint(g) - 1)
+				if r.Intn(3) == 0 {
+					base.WSMask = 1<<uint(g) - 1
+				}
+				for _, wp := range []bool{false, true} {
+					c := base
+					c.WrapParagraph = wp
+					run(c)
+					c.TruncMode, c.TruncOrient = 1, r.Intn(3)
+					run(c)
+					c.TruncOpp = true
+					c.TruncOrient = r.Intn(3)
+					run(c)
+					if g > 1 {
+						c = base
+						c.WrapParagraph, c.Split = wp, 1+r.Intn(g-1)
+						run(c)
+						c.TruncMode, c.TruncOrient = 1, r.Intn(3)
+						run(c)
+					}
+				}
+				if g > 1 {
+					c := base
+					c.TruncMode, c.Split, c.TruncOrient = 2, 1+r.Intn(g-1), r.Intn(3)
+					run(c)
+				}
+				c := base
+				c.DisableTrim = true
+				run(c)
+			}
+		}
+	})
+	ev.CaseEnum(total, nt)
+}
+
 // TestPropSyntheticLong: sizes beyond the internal constants of the wrapper. Seeded samples of
 // level sequences with many runs per line: 8..80 runs and the sizes around 16, 32, 64 and 100
 // (the capacity of the wrapper's line buffer), single- and multi-glyph runs, two-level and
@@ -906,7 +1113,19 @@ type pipeCase struct {
 	DisableTrim        bool  `json:"disable_trim"`
 	// WrapParagraph: use LineWrapper.WrapParagraph with Widths[0] instead of WrapNextLine calls.
 	WrapParagraph bool `json:"wrap_paragraph"`
+	// Vertical: Input.Direction and WrapConfig.Direction are vertical (TTB, or BTT with ParaRTL).
+	// Orientation bits (0 not set, 1 upright, 2 sideways) of Input.Direction (InputOrient: when
+	// not set, Segmenter.Split resolves them per run from the script: sideways for Latin or
+	// Hebrew, upright for Hiragana), of WrapConfig.Direction (CfgOrient) and of the direction the
+	// truncator is shaped in (TruncOrient), all independent.
+	Vertical    bool `json:"vertical,omitempty"`
+	InputOrient int  `json:"input_orient,omitempty"`
+	CfgOrient   int  `json:"cfg_orient,omitempty"`
+	TruncOrient int  `json:"trunc_orient,omitempty"`
 }
+
+// vertFont covers Latin, Greek, Cyrillic, Hebrew, digits and Hiragana.
+const vertFont = "opentype/common/mplus-1p-regular.ttf"
 
 var pipeFonts = []string{"opentype/common/DejaVuSans.ttf", "opentype/common/FreeSerif.ttf"}
 
@@ -983,7 +1202,7 @@ func crossCheckXText(text []rune, paraRTL bool, levels []int) {
 }
 
 func pipeKey(c pipeCase) string {
-	return fmt.Sprintf("%s|%v|%v|%v|%v|%d|%v|%d|%v|%v", c.Font, c.SplitFaces, c.ParaRTL, c.Text, c.Widths, c.TruncateAfterLines, c.TextContinues, c.BreakPolicy, c.DisableTrim, c.WrapParagraph)
+	return fmt.Sprintf("%s|%v|%v|%v|%v|%d|%v|%d|%v|%v|%v%d%d%d", c.Font, c.SplitFaces, c.ParaRTL, c.Text, c.Widths, c.TruncateAfterLines, c.TextContinues, c.BreakPolicy, c.DisableTrim, c.WrapParagraph, c.Vertical, c.InputOrient, c.CfgOrient, c.TruncOrient)
 }
 
 // runPipeline shapes and wraps one paragraph through the real pipeline and checks every line.
@@ -1066,7 +1285,11 @@ func runPipeline(t ev.TB, c pipeCase) {
 	crossCheckXText(text, c.ParaRTL, levels)
 
 	const size = 16
-	paraDir := dirOf(c.ParaRTL)
+	paraDir := dirWith(c.ParaRTL, c.Vertical, c.InputOrient)
+	cfgDir := dirWith(c.ParaRTL, c.Vertical, c.CfgOrient)
+	if c.Vertical {
+		ev.Label("pipe_para_vertical")
+	}
 	in := shaping.Input{Text: text, RunStart: 0, RunEnd: len(text), Direction: paraDir, Face: fi.face,
 		Size: fixed.I(size), Script: language.Latin, Language: "en"}
 	var fm shaping.Fontmap = oneFace{fi.face}
@@ -1094,33 +1317,48 @@ func runPipeline(t ev.TB, c pipeCase) {
 				glyphs[g.ClusterIndex] = p
 			}
 			p.count++
-			p.adv = g.XAdvance
+			p.adv = axisAdvance(&outs[i], &g)
 			// invisible glyphs: U+0020 and the explicit formatting characters (default ignorables,
 			// shaped to an empty glyph without advance)
 			isSpace := g.ClusterIndex >= 0 && g.ClusterIndex < len(text) && g.RuneCount == 1 &&
 				(text[g.ClusterIndex] == ' ' || uaxref.IsBidiFormat(classes[g.ClusterIndex]))
 			p.ws = isSpace
-			if isSpace != (g.Width == 0) {
+			empty := g.Width == 0
+			if c.Vertical {
+				empty = g.Height == 0 // what the wrapper tests for vertical runs
+			}
+			if isSpace != empty {
 				// the wrapper recognises whitespace by an empty glyph; the fonts used satisfy
 				// "space <=> empty glyph" for the generated alphabet
-				harnessBug("font %s: glyph of %U has width %d", c.Font, text[g.ClusterIndex], g.Width)
+				harnessBug("font %s: glyph of %U has width %d height %d", c.Font, text[g.ClusterIndex], g.Width, g.Height)
 			}
 		}
 	}
 	cfg := shaping.WrapConfig{
-		Direction: paraDir, TruncateAfterLines: c.TruncateAfterLines, TextContinues: c.TextContinues,
+		Direction: cfgDir, TruncateAfterLines: c.TruncateAfterLines, TextContinues: c.TextContinues,
 		BreakPolicy: shaping.LineBreakPolicy(c.BreakPolicy), DisableTrailingWhitespaceTrim: c.DisableTrim,
 	}
 	if c.TruncateAfterLines > 0 {
 		ell := []rune{'…'}
-		cfg = cfg.WithTruncator(&pipeShaper, shaping.Input{Text: ell, RunStart: 0, RunEnd: 1, Direction: paraDir,
+		cfg = cfg.WithTruncator(&pipeShaper, shaping.Input{Text: ell, RunStart: 0, RunEnd: 1, Direction: dirWith(c.ParaRTL, c.Vertical, c.TruncOrient),
 			Face: fi.face, Size: fixed.I(size), Script: language.Common, Language: "en"})
 	}
 	cx := &lineCtx{
 		paraRTL: c.ParaRTL,
+		paraDir: cfgDir,
 		levels:  levels,
 		isTruncator: func(run *shaping.Output) bool {
-			return c.TruncateAfterLines > 0 && len(run.Glyphs) == 1 && run.Glyphs[0].GlyphID == fi.ellipsis
+			// the glyphs of the shaped truncator (in vertical text the ellipsis is substituted by its
+			// vertical form); no generated text contains an ellipsis
+			if c.TruncateAfterLines == 0 || len(run.Glyphs) == 0 || len(run.Glyphs) != len(cfg.Truncator.Glyphs) {
+				return false
+			}
+			for k := range run.Glyphs {
+				if run.Glyphs[k].GlyphID != cfg.Truncator.Glyphs[k].GlyphID {
+					return false
+				}
+			}
+			return true
 		},
 		glyphOf: func(cluster int) (fixed.Int26_6, bool, bool) {
 			p := glyphs[cluster]
@@ -1290,10 +1528,16 @@ func (g *pgen) word(kind int) {
 		}
 	case 1:
 		g.text = append(g.text, word(alphaHebrew, 4, "hebrew")...)
+	case 3:
+		g.text = append(g.text, rapid.SliceOfN(rapid.SampledFrom(alphaKana), 1, 3).Draw(t, "kana")...)
 	default:
 		g.text = append(g.text, word(alphaDigits, 3, "number")...)
 	}
 }
+
+// alphaKana: class L, upright in vertical text (every other generated letter is sideways), only
+// used with vertFont.
+var alphaKana = []rune("あいうえおかきくけこ")
 
 func (g *pgen) sep() {
 	switch rapid.IntRange(0, 9).Draw(g.t, "sep") {
@@ -1380,12 +1624,27 @@ func genPipeCase(t *rapid.T) pipeCase {
 	c.ParaRTL = rapid.Bool().Draw(t, "para_rtl")
 	g := &pgen{t: t, paraRTL: c.ParaRTL}
 	g.fmtMode = rapid.SampledFrom([]int{0, 0, 0, 1, 1, 1, 2, 2}).Draw(t, "fmt_mode")
+	vertical := rapid.IntRange(0, 5).Draw(t, "vertical") == 0
+	if vertical {
+		// vertical paragraph: the orientation bits of the input, of the configuration and of the
+		// truncator are drawn independently; Hiragana words make the Segmenter mix upright and
+		// sideways runs on one line when the input leaves the orientation open
+		c.Vertical = true
+		c.Font = vertFont
+		c.InputOrient = rapid.SampledFrom([]int{0, 0, 0, 1, 2}).Draw(t, "input_orient")
+		c.CfgOrient = rapid.IntRange(0, 2).Draw(t, "cfg_orient")
+		c.TruncOrient = rapid.IntRange(0, 2).Draw(t, "trunc_orient")
+		g.fmtMode = 0
+	}
 	nUnits := rapid.IntRange(1, 10).Draw(t, "units")
 	if rapid.IntRange(0, 9).Draw(t, "many_units") == 0 {
 		// lines with more runs than any internal constant of the wrapper (16, 32)
 		nUnits = rapid.IntRange(11, 40).Draw(t, "units_many")
 	}
 	kinds := allKinds
+	if vertical {
+		kinds = []int{0, 0, 3, 3, 3, 1, 1, 2}
+	}
 	if g.fmtMode == 1 && !c.ParaRTL {
 		// keep the top level of a "shallow" LTR paragraph at levels 0 and 1: no numbers (a number
 		// after Hebrew is at level 2), and half of the time no Hebrew at all, so that the only
@@ -1514,6 +1773,10 @@ var knownPipeExamples = []pipeCase{
 	{Font: pipeFonts[0], ParaRTL: false, Text: runesToInts([]rune("  אבג דה ")), Widths: []int{10000}},
 	{Font: pipeFonts[1], ParaRTL: true, Text: runesToInts([]rune("abc de")), Widths: []int{10000}, WrapParagraph: true},
 	{Font: pipeFonts[1], ParaRTL: true, Text: runesToInts([]rune(" abc de ")), Widths: []int{45, 10000}},
+	// vertical text: the Segmenter sets orientation bits on every run, the configuration has none
+	{Font: vertFont, ParaRTL: false, Vertical: true, Text: runesToInts([]rune("aあ")), Widths: []int{10000}},
+	{Font: vertFont, ParaRTL: false, Vertical: true, Text: runesToInts([]rune("ab あい אב ")), Widths: []int{10000}, CfgOrient: 2},
+	{Font: vertFont, ParaRTL: true, Vertical: true, Text: runesToInts([]rune("ab あい אב ")), Widths: []int{10000}, InputOrient: 1, CfgOrient: 1, TruncateAfterLines: 1, TextContinues: true, TruncOrient: 2},
 	// explicit formatting: the only right-to-left content comes from an override / embedding / isolate
 	{Font: pipeFonts[0], ParaRTL: false, Text: runesToInts([]rune("ab \u202Ecd эю\u202C gh")), Widths: []int{10000}},
 	{Font: pipeFonts[0], ParaRTL: false, Text: runesToInts([]rune("ab \u2067אב גד\u2069 gh")), Widths: []int{10000}, SplitFaces: true},
